@@ -2,6 +2,7 @@
 Decides the ownership / copy discipline of the object stores."""
 import ast
 
+from ..stores import store_kind
 from ..model import AnalysisError, walk_no_nested, dotted, norm, kwarg
 from ..cfg import CFG, stmt_facts
 
@@ -447,7 +448,7 @@ def run(repo, rep, tier):
                 if isinstance(n, ast.Call) and \
                         isinstance(n.func, ast.Attribute) and \
                         n.func.attr in ('create', 'update') and \
-                        norm(n.func.value).endswith('_store') and \
+                        store_kind(n.func.value, f) is not None and \
                         len(n.args) == 2:
                     r4.sites += 1
                     r4.functions.add(f.fq)
@@ -571,7 +572,7 @@ def run(repo, rep, tier):
             for n in walk_no_nested(f.node):
                 if isinstance(n, ast.Call) and \
                         isinstance(n.func, ast.Attribute) and \
-                        norm(n.func.value) == 'instance_store' and \
+                        store_kind(n.func.value, f) == 'instance' and \
                         n.func.attr in ('get', 'object_exists', 'delete',
                                         'update', 'create') and n.args:
                     r6.sites += 1
